@@ -96,6 +96,25 @@ CHECKS.update({
             'Trusted: printer offsets (self-tested on hand-laid text); 10 s alarm as the bounded-time criterion.', 'DESIGN.md 3 C13'),
 })
 
+CHECKS.update({
+    'C14': ('Hypothesis abstract class diagrams + edit scripts -> harness-synthesised ooaofooa rows (drawn row order) -> component; compared with a description computed from the diagram; SQL-schema round trip',
+            'Synthesised BridgePoint class models (and the shipped Simple_Model lifted by the harness reader), after drawn edits, '
+            'are extracted through build_component / mk_component / load_component / gen_sql_schema and compared with the '
+            'classes, attribute order and types, identifiers and associations the diagram prescribes.',
+            'Trusted: pbt/bpmodel.py row synthesiser and expected_component (validated on Simple_Model.xtuml: lift -> rows -> '
+            'load gives the same description as the original file).', 'DESIGN.md 3 C14'),
+    'C15': ('Hypothesis call graphs inside a synthesised component; differential against the reference evaluator with call semantics',
+            'Generated functions, bridges, class/instance operations and a derived attribute (typed OAL bodies calling each '
+            'other, recursion, every return form, shared variable names) are invoked from Python and from OAL and compared '
+            'with the reference evaluator; enumerators and constants are compared with the modelled order / values under '
+            'shuffled row order.',
+            'Trusted: pbt/oalref.py call semantics, pbt/bpmodel.py rows; error-prone graphs are discarded and counted.', 'DESIGN.md 3 C15'),
+    'C20': ('Hypothesis diagrams + edit scripts -> rows -> build_schema / gen_xsd_schema.main; declared elements, attributes and simple types vs the set computed from the diagram',
+            'The generated XSD is parsed (well-formedness) and its class elements, attributes with types and simple types are '
+            'compared with exactly the set the diagram prescribes, for synthesised models and the shipped model after drawn edits.',
+            'Trusted: expected() in pbt/c20_xsd.py and the row synthesiser; predefined unsupported global types are ignored.', 'DESIGN.md 3 C20'),
+})
+
 NOT_APPLICABLE = {
 }
 
